@@ -610,9 +610,15 @@ func (s *Service) DeleteTopic(topic string) error {
 	defer s.mu.Unlock()
 	delete(s.closedTopics, topic)
 	s.topics.DeleteTopic(topic)
-	return s.topicsStore.Update(func(tx storage.Tx) error {
+	err := s.topicsStore.Update(func(tx storage.Tx) error {
 		return tx.Delete(topic)
 	})
+	// Only the events and state are deleted, the handlers of the topic remain defined.
+	// Attach them again, otherwise they miss every event until the next restart.
+	for _, h := range s.handlers[topic] {
+		s.topics.RegisterHandler(topic, h.Handler)
+	}
+	return err
 }
 
 func (s *Service) UpdateEvent(topic string, event alert.EventState) error {
